@@ -505,7 +505,7 @@ def inv_ptr(ctx):
 
 def inv_legal(ctx):
     P = ctx.P
-    out = [f"{x.rule}: {x.what[:140]}" for x in sub_rules(ctx, "C02", {"C02.R6"}) if "gate" in x.key or "unsafe" in x.key or "forwards" in x.key]
+    out = [f"{x.rule}: {x.what[:140]}" for x in sub_rules(ctx, "C02", {"C02.R6", "C02.R9"})]
     out += [f"{x.rule}: {x.what[:140]}" for x in sub_rules(ctx, "C11", {"C11.R1"})]
     LEG = "chess_movegen::iter::<impl chess_movegen::Board>::legals"
     # alphabeta call sites: the move comes from legals() of the board stored in args.old_board
